@@ -2,14 +2,14 @@
    by the harness, see known_findings.txt F1, F10, F12, F8) and examples showing that the hypotheses
    of the _partial theorems are satisfiable with non-trivial outcomes. *)
 From Coq Require Import List Arith Bool Lia NArith.
-From AV Require Import model.C05_model model.C05_run.
+From AV Require Import model.C05_model model.C05_old_model model.C05_run.
 Import ListNotations.
 
 Definition mkcase dflt raw sro repl desired rank devrank : case :=
   {| c_dflt := dflt; c_raw := raw; c_sro := sro; c_repl := repl; c_desired := desired; c_rank := rank;
      c_devrank := devrank; c_min := 100; o_trash := []; o_pull := []; o_lost := false |}.
-Definition m_trash (c : case) := trashes (fst (m_out c)).
-Definition m_lost (c : case) := snd (m_out c).
+Definition m_trash (c : case) := trashes (fst (m_out_old c)).
+Definition m_lost (c : case) := snd (m_out_old c).
 Definition eff_of (c : case) := setup (c_raw c) (c_sro c).
 Definition before_of (c : case) k := phys_repl (c_dflt c) k (eff_of c) (held (eff_of c) (c_repl c)).
 Definition after_of (c : case) k := phys_repl (c_dflt c) k (eff_of c) (after (eff_of c) (c_repl c) (m_trash c)).
@@ -65,6 +65,6 @@ Definition ex_ok3 : case :=   (* lost *)
   mkcase 1 [mkm 1 0 1 false 1 []; mkm 2 1 2 true 1 []] [] [] [(1, 2)] [0; 1] [0; 1; 2].
 Lemma ex_ok_facts :
   hyp_b ex_ok1 = true /\ m_trash ex_ok1 = [(3, 12)] /\
-  hyp_b ex_ok2 = true /\ pulls (fst (m_out ex_ok2)) = [(1, 1)] /\ m_trash ex_ok2 = [] /\
+  hyp_b ex_ok2 = true /\ pulls (fst (m_out_old ex_ok2)) = [(1, 1)] /\ m_trash ex_ok2 = [] /\
   hyp_b ex_ok3 = true /\ m_lost ex_ok3 = true.
 Proof. vm_compute. auto 10. Qed.
